@@ -880,8 +880,8 @@ struct Engine {
   }
   template <class X>
   static void adopt(const X &) {}
-  template <int K>
-  static void adopt(const Tracked<K> &t) { ledger_adopt(t); }
+  template <int K, int P>
+  static void adopt(const Tracked<K, P> &t) { ledger_adopt(t); }
 
   void op_access(Slot<Vec> &a) {
     Vec &v = *a.obj;
